@@ -1,7 +1,7 @@
 (* C14 — the instance for the tables regenerated from the source, and the
    refutation for the tables and the dispatch as found. *)
 From Coq Require Import List String Bool.
-From Shovel Require Import Model.Plan Model.Provides Model.PlanCheck Proofs.PlanP Gen.GlfTables Gen.GetFields.
+From Shovel Require Import Model.Plan Model.Provides Model.PlanCheck Proofs.PlanP Gen.GlfTables Gen.GetFields Gen.FetchFills Gen.GetDispatch.
 Import ListNotations.
 Open Scope string_scope.
 
@@ -11,9 +11,17 @@ Definition C14_full (T : tables) (steps : list step) (disp : flags -> list fetch
   forall m S, incl S names -> mode_ok m S ->
   forall f, In f S -> supplied_b P (disp (new T steps (needs_of m S))) m f = true.
 
-Lemma check_plan_gives_full : forall T steps P names,
-  check_plan T steps P names = true -> C14_full T steps dispatch P names.
-Proof. intros T steps P names H m S Hi Hm f Hf. eapply check_plan_sound_l; eauto. Qed.
+Lemma check_plan_gives_full : forall T steps disp P names,
+  check_plan T steps disp P names = true -> C14_full T steps disp P names.
+Proof. intros T steps disp P names H m S Hi Hm f Hf. eapply check_plan_sound_l; eauto. Qed.
+
+(* the dispatch and the provides-relation REGENERATED from the source of this run *)
+Definition disp_gen : flags -> list fetch := dispatch_of get_dispatch.
+Definition provides_gen : string -> list fetch := provides_of fetch_fills.
+
+(* The hand-written [dispatch] (Model/Plan.v) and [provides] (Model/Provides.v) were compared with the
+   generated ones on /repo eb0d25d (all 32 flag combinations; every case label of get): equal.  They
+   now serve only the statements about the code AS FOUND below. *)
 
 (* the planner as found (shovel/glf/filter.go before fixes/C14-1) *)
 Definition legacy_tables : tables := {|
@@ -33,12 +41,12 @@ Definition legacy_steps : list step := [
   mkStep THeader [] FHeaders THeader
 ].
 
-Definition f_egp := mkField "tx_effective_gas_price" IReceipt "t.EffectiveGasPrice".
-Definition f_gp := mkField "tx_gas_price" ITx "t.GasPrice".
-Definition f_status := mkField "tx_status" IReceipt "t.Receipt.Status".
-Definition f_tfrom := mkField "trace_action_from" ITrace "ta.From".
-Definition f_tidx := mkField "trace_action_idx" ITrace "ta.Idx".
-Definition f_addr := mkField "log_addr" ILog "l.Address".
+Definition f_egp := mkField "tx_effective_gas_price" IReceipt "Receipt.EffectiveGasPrice".
+Definition f_gp := mkField "tx_gas_price" ITx "Tx.GasPrice".
+Definition f_status := mkField "tx_status" IReceipt "Receipt.Status".
+Definition f_tfrom := mkField "trace_action_from" ITrace "TraceAction.From".
+Definition f_tidx := mkField "trace_action_idx" ITrace "TraceAction.Idx".
+Definition f_addr := mkField "log_addr" ILog "Log.Address".
 
 (* tx_effective_gas_price alone: blocks are fetched, receipts are not *)
 Lemma legacy_egp_not_fetched :
@@ -104,5 +112,5 @@ Proof.
 Qed.
 
 (* the checker itself finds them: it rejects the tables as found *)
-Lemma checker_rejects_legacy_tables : check_plan legacy_tables legacy_steps provides get_fields = false.
+Lemma checker_rejects_legacy_tables : check_plan legacy_tables legacy_steps dispatch provides get_fields = false.
 Proof. vm_compute. reflexivity. Qed.
